@@ -113,6 +113,36 @@ func (c *Ctx) lowerBound(in ssa.Instruction, v ssa.Value, d int) (int64, bool) {
 		if cal := staticCallee(call); cal != nil && FuncName(cal) == "geom.(CoordinatesType).Dimension" {
 			take(2)
 		}
+		// len(x) where x[k] (k constant) has already been evaluated on every path to here:
+		// had x been shorter, that access would have panicked first
+		if b, isB := call.Call.Value.(*ssa.Builtin); isB && b.Name() == "len" && len(call.Call.Args) == 1 {
+			x := call.Call.Args[0]
+			if fn := in.Parent(); fn != nil {
+				eachInstr(fn, func(other ssa.Instruction) {
+					ia, ok := other.(*ssa.IndexAddr)
+					if !ok || !(ia.X == x || sameValue(ia.X, x)) {
+						return
+					}
+					k, isC := constInt(ia.Index)
+					if !isC || k < 0 {
+						return
+					}
+					// the element must be accessed (loaded or stored), not merely addressed
+					used := false
+					for _, r := range *ia.Referrers() {
+						switch u := r.(type) {
+						case *ssa.UnOp:
+							used = used || (u.Op == token.MUL && (u.Block() == in.Block() && instrIndex(u) < instrIndex(in) || u.Block() != in.Block() && u.Block().Dominates(in.Block())))
+						case *ssa.Store:
+							used = used || (u.Addr == ssa.Value(ia) && (u.Block() == in.Block() && instrIndex(u) < instrIndex(in) || u.Block() != in.Block() && u.Block().Dominates(in.Block())))
+						}
+					}
+					if used {
+						take(k + 1)
+					}
+				})
+			}
+		}
 	}
 	for _, g0 := range guardsAt(in) {
 		for _, g := range expandGuardDeep(g0) {
@@ -2022,11 +2052,19 @@ func init() {
 					if !ok {
 						return
 					}
-					al, ok := ia.X.(*ssa.Alloc)
-					if !ok {
+					where := "local"
+					switch b := ia.X.(type) {
+					case *ssa.Alloc:
+					case *ssa.Global:
+						// a package-level table (only those of this repository)
+						if b.Pkg == nil || !c.P.InRepo(f) {
+							return
+						}
+						where = "package-level"
+					default:
 						return
 					}
-					at, ok := deref(al.Type()).Underlying().(*types.Array)
+					at, ok := deref(ia.X.Type()).Underlying().(*types.Array)
 					if !ok {
 						return
 					}
@@ -2036,6 +2074,24 @@ func init() {
 					n++
 					N := at.Len()
 					okBound := false
+					if hi, ok := valueUpperBound(ia.Index, 0); ok && hi < N {
+						okBound = true
+					}
+					// an index of one of the repository's closed enum types (operand, side, …): all
+					// its declared constants are valid positions
+					if nt, ok := ia.Index.Type().(*types.Named); ok && nt.Obj().Pkg() != nil && c.P.Pkgs[nt.Obj().Pkg().Name()] != nil && !convertedFromData(c.P, nt) {
+						if ks := enumConsts(nt); len(ks) >= 2 {
+							all := true
+							for _, k := range ks {
+								if v, ok := constIntVal(k); !ok || v < 0 || v >= N {
+									all = false
+								}
+							}
+							if all {
+								okBound = true
+							}
+						}
+					}
 					if _, hi, _, hasHi := intBounds(ia, ia.Index); hasHi && hi < N {
 						okBound = true
 					}
@@ -2061,10 +2117,10 @@ func init() {
 						}
 					}
 					is, _ := accessPath(ia.Index)
-					c.Check(okBound, ia.Pos(), FuncName(f), fmt.Sprintf("index %s into a local [%d] array", trunc(is), N), "below the array's size where it is evaluated", fmt.Sprintf("nothing keeps the index below %d where the local array is indexed: when more than %d entries are needed the access panics (index out of range)", N, N))
+					c.Check(okBound, ia.Pos(), FuncName(f), fmt.Sprintf("index %s into a %s [%d] array", trunc(is), where, N), "below the array's size where it is evaluated", fmt.Sprintf("nothing keeps the index below %d where the array is indexed: when more than %d entries are needed the access panics (index out of range)", N, N))
 				})
 			}
-			c.Triv(token.NoPos, "-", "summary", fmt.Sprintf("%d variable indexes into local fixed-size arrays", n))
+			c.Triv(token.NoPos, "-", "summary", fmt.Sprintf("%d variable indexes into local or package-level fixed-size arrays", n))
 		},
 	})
 }
@@ -3212,4 +3268,111 @@ func init() {
 			c.Check(problem == "", call.Pos(), FuncName(ext), "canonical start of an extracted ring", "rotateSeqs with the amount passed brings the smallest edge to the front (3 and 4 edges, every position)", problem)
 		},
 	})
+}
+
+// valueUpperBound: an upper bound of a non-negative integer value that follows
+// from how it is computed (x & mask, x % k, a conversion from a narrow unsigned
+// type, a phi of bounded values).
+func valueUpperBound(v ssa.Value, d int) (int64, bool) {
+	if d > 6 {
+		return 0, false
+	}
+	if k, ok := constInt(v); ok {
+		return k, k >= 0
+	}
+	switch x := v.(type) {
+	case *ssa.Convert:
+		if b, ok := x.X.Type().Underlying().(*types.Basic); ok {
+			switch b.Kind() {
+			case types.Uint8:
+				if hi, ok := valueUpperBound(x.X, d+1); ok {
+					return hi, true
+				}
+				return 255, true
+			case types.Bool:
+				return 1, true
+			}
+			if b.Info()&types.IsInteger != 0 {
+				return valueUpperBound(x.X, d+1)
+			}
+		}
+	case *ssa.ChangeType:
+		return valueUpperBound(x.X, d+1)
+	case *ssa.BinOp:
+		switch x.Op {
+		case token.AND:
+			for _, o := range []ssa.Value{x.X, x.Y} {
+				if k, ok := constInt(stripConv(o)); ok && k >= 0 {
+					return k, true
+				}
+			}
+		case token.REM:
+			if k, ok := constInt(stripConv(x.Y)); ok && k > 0 {
+				if b, ok := x.X.Type().Underlying().(*types.Basic); ok && b.Info()&types.IsUnsigned != 0 {
+					return k - 1, true
+				}
+			}
+		case token.SHR:
+			if hi, ok := valueUpperBound(x.X, d+1); ok {
+				if k, ok := constInt(stripConv(x.Y)); ok && k >= 0 && k < 63 {
+					return hi >> uint(k), true
+				}
+				return hi, true
+			}
+		}
+	case *ssa.Phi:
+		var hi int64
+		for _, e := range x.Edges {
+			h, ok := valueUpperBound(e, d+1)
+			if !ok {
+				return 0, false
+			}
+			if h > hi {
+				hi = h
+			}
+		}
+		return hi, len(x.Edges) > 0
+	}
+	return 0, false
+}
+
+// convertedFromData: somewhere in the repository a non-constant integer is
+// converted to the named type, so its values are not confined to the declared
+// constants (a type code read from input, say).
+var convertedFromDataMemo = map[*types.Named]bool{}
+
+func convertedFromData(p *Program, nt *types.Named) bool {
+	if r, ok := convertedFromDataMemo[nt]; ok {
+		return r
+	}
+	res := false
+	for _, f := range p.Funcs {
+		if res || !p.InRepo(f) {
+			continue
+		}
+		eachInstr(f, func(in ssa.Instruction) {
+			var from ssa.Value
+			var to types.Type
+			switch x := in.(type) {
+			case *ssa.Convert:
+				from, to = x.X, x.Type()
+			case *ssa.ChangeType:
+				from, to = x.X, x.Type()
+			default:
+				return
+			}
+			if !types.Identical(to, nt) {
+				return
+			}
+			if _, isC := from.(*ssa.Const); isC {
+				return
+			}
+			if types.Identical(from.Type(), nt) {
+				return
+			}
+			res = true
+		})
+	}
+	convertedFromDataMemo[nt] = res
+	return res
 }
